@@ -20,6 +20,7 @@ import CueVerif.Proofs.JsonSchema
 import CueVerif.Proofs.JsonSchemaSkel
 import CueVerif.Proofs.JsonSchemaCCFlat
 import CueVerif.Proofs.JsonSchemaCCMain
+import CueVerif.Proofs.JsonSchemaCCEnum
 namespace CueVerif.C13
 open CueVerif CueVerif.JS CueVerif.Skel CueVerif.CCm
 
@@ -341,6 +342,43 @@ theorem C13_not_step (re tr vf) (st : TSt) (s : Schema) (j : Json) (hI : CCm.SIn
     stAcc re (bNot tr s st) j = (stAcc re st j && (not3 (vf s)).getD false) :=
   CCm.not_step re tr vf st s j hI hg
 
+/-! #### enum / const / uniqueItems: CUE literal equality = JSON equality on normal-form data -/
+
+/-- on data in normal form (positive denominators, integral numbers written as int literals — the
+complement is the known deviation `number-literal-form`) the equality CUE decides between two
+literals is JSON Schema's equality, for nested arrays and objects too -/
+theorem C13_litEq_eq_jeq (a b : Json) (ha : CCm.normal a = true) (hb : CCm.normal b = true) :
+    CCm.litEq a b = jeq a b :=
+  CCm.litEq_eq_jeq a b ha hb
+
+/-- `const` ↦ the literal `constValue(v)`: exact -/
+theorem C13_const_exact (re rec res kws) (v j : Json) (hv : CCm.normal v = true)
+    (hj : CCm.normal j = true) :
+    kwHolds re rec res kws (.const v) j = some (acc re (.lit v) j) :=
+  CCm.const_exact re rec res kws v j hv hj
+
+/-- `enum` ↦ the disjunction of the literals whose kind is allowed: exact for every instance whose
+own CUE kind is allowed (the values dropped by `constraintEnum` cannot equal such an instance) -/
+theorem C13_enum_exact (re rec res kws) (allowed : KSet) (vs : List Json) (j : Json)
+    (hvs : ∀ v ∈ vs, CCm.normal v = true) (hj : CCm.normal j = true)
+    (hk : allowed (kindOf j) = true) :
+    kwHolds re rec res kws (.enum vs) j = some
+      (match (vs.filter (fun v => allowed (kindOf v))).map CC.lit with
+       | [] => false
+       | c :: cs => acc re (CCm.foldOr c cs) j) :=
+  CCm.enum_exact re rec res kws allowed vs j hvs hj hk
+
+/-- `uniqueItems: true` ↦ `list.UniqueItems()`: exact on normal-form arrays -/
+theorem C13_uniqueItems_exact (re rec res kws) (j : Json) (hj : CCm.normal j = true) :
+    kwHolds re rec res kws (.uniqueItems true) j =
+      some (coreOf j != .array || acc re .uniqueItems j) :=
+  CCm.uniqueItems_exact re rec res kws j hj
+
+-- non-vacuity: nested normal-form data; and outside normal form the two equalities differ (1 vs 1.0)
+example : CCm.normal (.arr [.num ⟨1, 1⟩, .obj [("k", .num ⟨15, 10⟩)]]) = true := by decide
+example : CCm.litEq (.num ⟨1, 1⟩) (.num ⟨10, 10⟩) = false ∧ jeq (.num ⟨1, 1⟩) (.num ⟨10, 10⟩) = true := by
+  decide
+
 /-- THE semantic-preservation statement for the WHOLE transcribed subset (`inModel`): -- OPEN.
 Proved: `C13_translate_exact_partial` (fragment above).  Exactly missing, each a `kw_step` case of
 Proofs/JsonSchemaCCMain.lean plus its guard in `kwOk`:
@@ -349,8 +387,9 @@ Proofs/JsonSchemaCCMain.lean plus its guard in `kwOk`:
  * `ifThenElse_step`: `bIfThenElse` after the phases + tracking `st.ifS/thenS/elseS = findIf/findThen/
    findElse kws` under distinct keys (the `then` narrowing is covered by `GoodA.sound` of `if`);
  * `oneOf_noNeeds` through `translate` (IntClosed in place of `Sub.WF.whole`);
- * `enum_step` / `const_step`: `litEq = jeq` on normal-form data and the kind-level (not core-level)
-   invariant `stAcc st j → st.allowed (kindOf j)`, since enum/const can leave `{float}`;
+ * `enum_step` / `const_step`: the constraint-level exactness is proved (`C13_enum_exact`,
+   `C13_const_exact`, `C13_litEq_eq_jeq`); missing is the state-level step with the kind-level (not
+   core-level) invariant `stAcc st j → st.allowed (kindOf j)`, since enum/const can leave `{float}`;
  * `contains_step`, `items_step`, `uniqueItems_step`: instance guard `intForm` on all array
    elements, `minItems ≥ len(prefixItems)` for prefixItems. -/
 def C13_translate_exact_stmt (guard : Nat → Schema → Json → Prop) : Prop :=
